@@ -301,6 +301,10 @@ macro_rules! token_type {
 
 token_type!(S, 0x5353_0001, "S");
 token_type!(W, 0x5757_0002, "W", #[repr(align(64))]);
+token_type!(T5, 0x5435_0007, "T5");
+token_type!(T6, 0x5436_0008, "T6", #[repr(align(16))]);
+token_type!(T7, 0x5437_0009, "T7");
+token_type!(T8, 0x5438_000A, "T8");
 token_type!(RA, 0x5241_0004, "RA");
 token_type!(RB, 0x5242_0005, "RB");
 token_type!(RC, 0x5243_0006, "RC", #[repr(align(32))]);
@@ -375,5 +379,6 @@ impl<'de> Deserialize<'de> for H {
     }
 }
 
-pub const COMP_NAMES: [&str; 5] = ["Z", "B", "S", "W", "H"];
+pub const NC: usize = 9;
+pub const COMP_NAMES: [&str; 9] = ["Z", "B", "S", "W", "H", "T5", "T6", "T7", "T8"];
 pub const RES_NAMES: [&str; 3] = ["RA", "RB", "RC"];
